@@ -6,6 +6,10 @@ ROOT = os.path.dirname(os.path.abspath(__file__))
 BASE_NOTE = "Trusted base: the harness's own reference model/oracle for this property (written from GitHub's documentation, not from actionlint's code), pgregory.net/rapid v1.3.0, the Go toolchain. 'Held' means held on every generated case; absence of violations outside the explored region is not established."
 
 CHECKS = {
+ "C01": dict(
+   technique="rapid structure-aware hostile mutation of generated and repository inputs on four input channels + native coverage-guided go fuzz targets (thorough); oracle: returns within 20 s x3, no Go panic (recovered in the harness), no process crash (driver recovers the last case), exit status in {0,1,3}",
+   text="Generated-input search for crashes and hangs: clean generated workflows / action metadata / reusable workflows / configurations and repository test files receive hostile structural, tag, alias, nesting, expression and byte-level mutations and are fed through Lint, LintFiles (with and without a repository), a local action, a called reusable workflow, ParseConfig and Command.Main; panics inside LintFiles goroutines kill the worker and are recovered by the driver from the last-case file.",
+   design="DESIGN.md section 5, C01"),
  "C02": dict(
    technique="rapid-generated collision templates, random workflows with seeded errors and references, repository test data and multi-file worlds; repeat relation: R fresh lints under GOMAXPROCS 1/2/4/16 must give byte-identical output and error sequences",
    text="Repeat relation over generated cases built to offer several candidates or several diagnostics at one position (format placeholders, missing inputs of actions and reusable workflows, runner label conflicts, several needs cycles, broken local action used by several jobs/files, references to every defined entity from every position); each case is linted 16 (48) times with fresh linters under varying GOMAXPROCS; every run re-randomises map iteration, so an order dependence survives with probability 2^-(R-1).",
@@ -31,6 +35,14 @@ CHECKS = {
    technique="rapid-generated workflows rendered by a position-recording YAML emitter: (a) planted constructs with known offending token position, (b) metamorphic shift relation between two layouts of one tree and inserted top lines on repository test data, (c) bounds invariant",
    text="The harness writes the YAML itself and records line/column of every key and scalar, so expected positions are independent of yaml.v3 and actionlint: planted lexer/parser/semantic/key/value/glob constructs must be reported exactly at the recorded token; every diagnostic of a workflow with seeded errors must move with its token between two random layouts; all diagnostics lie inside the file.",
    design="DESIGN.md section 5, C07"),
+ "C08": dict(
+   technique="rapid metamorphic testing: every name occurrence (YAML keys, id/needs values, expression identifiers/properties/functions/['name'] literals, JSON literal keys) of generated workflow shapes is independently re-spelled; diagnostics must be identical up to case-folded messages",
+   text="Metamorphic relation on generated workflows with defined and undefined references: re-spelling the letter case of any subset of name occurrences (same lengths, so positions are unchanged) must leave the multiset of (line, column, kind, case-folded message) unchanged; keywords are checked to stay case-sensitive.",
+   design="DESIGN.md section 5, C08"),
+ "C09": dict(
+   technique="rapid metamorphic testing over histories: workflows composed of independent jobs/steps with expressions biased to filter/property chains; delete/permute unrelated jobs and steps, insert a step, repeat; diagnostics of the observed unit compared relative to its start",
+   text="The diagnostics attributed to an observed job or step (relative line, column, kind, normalised message) must be identical when unrelated jobs are deleted or reordered, id-less earlier steps are deleted, an extra expression-only step is inserted before it, or the run is repeated - i.e. for every generated history of rule-internal state before the unit is visited.",
+   design="DESIGN.md section 5, C09"),
  "C11": dict(
    technique="rapid grammar-based generation of access chains over the documented untrusted paths and trusted relatives, in all spellings and embeddings; differential against a stateless top-down taint model over the harness's reference AST; positions checked through the linter",
    text="Expressions built from the documented untrusted paths (and trusted siblings/prefixes/extensions) with random per-segment spelling, array index/filter forms and embeddings are checked at the semantic-checker level and through the linter in script and non-script positions; the reported path sets and columns must equal those computed by an independent taint model on the harness's own parse tree.",
